@@ -46,4 +46,24 @@ impl E {
         drop(g);
         Some(v)
     }
+
+    /// C16.M1 positive: a slice made from the guarded pointer outlives the guard.
+    pub fn as_slice(&self) -> &[u8] {
+        let g = self.0.lock().unwrap();
+        unsafe { std::slice::from_raw_parts(g.ptr.as_ptr(), g.len) }
+    }
+
+    /// C16.M1 positive: user of the stale slice.
+    pub fn sum(&self) -> u32 {
+        self.as_slice().iter().map(|b| *b as u32).sum()
+    }
+
+    /// negative: the slice is only used while the guard is live
+    pub fn sum_locked(&self) -> u32 {
+        let g = self.0.lock().unwrap();
+        let s = unsafe { std::slice::from_raw_parts(g.ptr.as_ptr(), g.len) };
+        let n = s.iter().map(|b| *b as u32).sum();
+        drop(g);
+        n
+    }
 }
